@@ -653,6 +653,98 @@ Proof.
   destruct (re_end x); [|discriminate]. apply build_height in H. lia.
 Qed.
 
+(* ---------------------------------------------------------------- the decay chain is the path to the root of the tree *)
+Fixpoint path_up (tr : tree) (x : Z) : option (list Z) :=
+  match tr with
+  | Leaf i => if i =? x then Some [i] else None
+  | Node i a b =>
+      if i =? x then Some [i] else
+      match path_up a x with
+      | Some p => Some (p ++ [i])
+      | None => match path_up b x with Some p => Some (p ++ [i]) | None => None end
+      end
+  end.
+
+Fixpoint linked (t : rtopo) (l : list Z) : Prop :=
+  match l with
+  | [] => False
+  | a :: r => match r with [] => True | b :: _ => gen_get_parent_id t a = Ok (Some b) /\ linked t r end
+  end.
+
+Lemma linked_snoc t : forall l i, linked t l -> gen_get_parent_id t (last l 0) = Ok (Some i) -> linked t (l ++ [i]).
+Proof.
+  induction l as [|a r IH]; intros i Hl Hp; [contradiction|].
+  destruct r as [|b r'].
+  - cbn in *. split; [exact Hp|exact I].
+  - cbn [linked] in Hl. destruct Hl as [H1 H2].
+    change ((a :: b :: r') ++ [i]) with (a :: ((b :: r') ++ [i])).
+    assert (Hx : linked t ((b :: r') ++ [i])) by (apply IH; [exact H2|exact Hp]).
+    cbn [linked app] in *. split; [exact H1|exact Hx].
+Qed.
+
+Lemma last_snoc (l : list Z) i : last (l ++ [i]) 0 = i.
+Proof. induction l as [|a [|b r] IH]; cbn in *; auto. Qed.
+
+Lemma path_up_spec t : forall tr x p, tree_links t tr -> path_up tr x = Some p ->
+  hd 0 p = x /\ last p 0 = eid tr /\ linked t p.
+Proof.
+  induction tr as [i | i a IHa b IHb]; intros x p Hl H; cbn [path_up] in H.
+  - destruct (Z.eqb_spec i x); [|discriminate]. injection H as <-. subst. cbn. auto.
+  - destruct (Z.eqb_spec i x); [injection H as <-; subst; cbn; auto|].
+    cbn [tree_links] in Hl. destruct Hl as (_ & _ & Pa & Pb & La & Lb).
+    destruct (path_up a x) as [pa|] eqn:Ea.
+    + injection H as <-. destruct (IHa x pa La Ea) as (Hh & Hla & Hlk).
+      repeat split.
+      * destruct pa; [contradiction|exact Hh].
+      * apply last_snoc.
+      * apply linked_snoc; [exact Hlk|]. rewrite Hla. exact Pa.
+    + destruct (path_up b x) as [pb|] eqn:Eb; [|discriminate]. injection H as <-.
+      destruct (IHb x pb Lb Eb) as (Hh & Hlb & Hlk).
+      repeat split.
+      * destruct pb; [contradiction|exact Hh].
+      * apply last_snoc.
+      * apply linked_snoc; [exact Hlk|]. rewrite Hlb. exact Pb.
+Qed.
+
+Lemma linked_chain_ok t : forall l, linked t l -> gen_get_parent_id t (last l 0) = Ok None -> chain_ok t l.
+Proof.
+  induction l as [|a r IH]; intros Hl Hp; [contradiction|].
+  destruct r as [|b r']; [exact Hp|].
+  cbn [linked] in Hl. destruct Hl as [H1 H2]. cbn [chain_ok]. split; [exact H1|].
+  apply IH; [exact H2|exact Hp].
+Qed.
+
+(* with enough fuel the translated loop returns THE chain *)
+Lemma gen_chain_loop_complete t s0 : forall l x, chain_ok t (x :: l) -> forall fuel acc,
+  (length l + 1 < fuel)%nat -> gen_list_decay_chain_ids_loop1 fuel t s0 acc (Some x) = Ok (acc ++ x :: l, None).
+Proof.
+  induction l as [|y l IH]; intros x Hc fuel acc Hf.
+  - destruct fuel as [|[|f]]; try (cbn in Hf; lia). cbn [chain_ok] in Hc.
+    cbn [gen_list_decay_chain_ids_loop1]. rewrite Hc. cbn [bind]. reflexivity.
+  - destruct fuel as [|f]; [lia|]. cbn [chain_ok] in Hc. destruct Hc as [Hp Hc].
+    cbn [gen_list_decay_chain_ids_loop1]. rewrite Hp. cbn [bind].
+    rewrite (IH y Hc f (acc ++ [x])) by (cbn [length] in Hf; lia).
+    rewrite <- app_assoc. reflexivity.
+Qed.
+
+Theorem gen_decay_chain_is_tree_path t tr x p fuel : wf_ids t -> tree_of_topo t = Some tr ->
+  gen_assert_isobar_topology t = Ok tt -> path_up tr x = Some p -> (length p < fuel)%nat ->
+  gen_list_decay_chain_ids fuel t x = Ok p.
+Proof.
+  intros Hwf Ht Ha Hp Hf.
+  destruct (tree_of_topo_embeds _ _ Ht) as (e0 & Hin & Ho & Hemb).
+  pose proof (embeds_links t Hwf _ _ Hemb) as Hl.
+  destruct (path_up_spec t tr x p Hl Hp) as (Hh & Hla & Hlk).
+  assert (Hroot : gen_get_parent_id t (eid tr) = Ok None).
+  { rewrite (embeds_eid _ _ _ Hemb). unfold gen_get_parent_id, topo_edge.
+    rewrite (topo_edge_in_unique _ e0 Hwf Hin). cbn [bind]. now rewrite Ho. }
+  assert (Hc : chain_ok t p) by (apply linked_chain_ok; [exact Hlk|now rewrite Hla]).
+  destruct p as [|x' l]; [contradiction|]. cbn in Hh. subst x'.
+  unfold gen_list_decay_chain_ids. rewrite Ha. cbn [bind].
+  rewrite (gen_chain_loop_complete t x l x Hc fuel []) by (cbn [length] in Hf; lia).
+  reflexivity.
+Qed.
+
 (* decidable form of the hypotheses, for the non-vacuity example *)
 Fixpoint nodupb (l : list Z) : bool := match l with [] => true | x :: r => negb (memZ x r) && nodupb r end.
 Definition refine_hyps_ok (t : rtopo) : bool :=
